@@ -48,12 +48,14 @@ def run_text(text, ns):
         if c[1]:
             return ("ok", eval(c[0], ns))
         exec(c[0], ns)
-        return ("ok", None)
+        return ("ok", ns.pop("_", None))      # a multi-statement operation reports through the name `_`
     except Exception as ex:
         return ("exc", type(ex).__name__)
 
 
 def matches(got, exp):
+    if exp is None:                           # the model has no opinion on result or exception
+        return True
     if exp[0] == "exc":
         return got[0] == "exc" and got[1] == exp[1]
     if got[0] != "ok":
@@ -62,6 +64,8 @@ def matches(got, exp):
 
 
 def show(r):
+    if r is None:
+        return "anything"
     if r[0] == "exc":
         return "raises " + r[1]
     return "any" if r[1] is ANY else repr(r[1])
@@ -394,6 +398,19 @@ class DictSpec:
         op("d = copy.deepcopy(d)", m_replace_state(lambda st: st))
         if multi:
             op("d = d.fromkeys(['b', 'a'], 1)", lambda st: [((("b", (1,)), ("a", (1,))), OK)])
+        # a list handed out by keys() / values() / items() is a snapshot: a later mutation of the dict must not change it ...
+        mutations = [("d['b'] = 2", m_set("b", 2)), ("d.pop('a', None)", m_pop("a", None)), ("d.clear()", lambda st: [((), OK)])]
+        for view in ("keys", "values", "items"):
+            for mtext, mfn in mutations:
+                op("r = d.%s(); s = list(r); %s; _ = not isinstance(r, list) or r == s" % (view, mtext),
+                   (lambda mfn: lambda st: [(mfn(st)[0][0], ("ok", True))])(mfn))
+        # ... and editing such a list must not touch the dict
+        for view, edit in (("keys", "r.append('zz')"), ("keys", "r.reverse()"), ("keys", "r.clear()"), ("keys", "'a' in r and r.remove('a')"),
+                           ("values", "r.clear()"), ("values", "r.append(9)"), ("items", "r.clear()"), ("items", "r.reverse()")):
+            op("r = d.%s(); %s" % (view, edit), lambda st: [(st, None)])
+        # deleting while iterating over keys() visits every key
+        op("for k in d.keys(): d.pop(k)", lambda st: [((), None)])
+        op("for k in d.keys(): del d[k]", lambda st: [((), None)])
         # python >= 3.9 operator form of update
         for bulk in self.bulks()[:3]:
             text, pairs = self.forms(bulk)[1]
@@ -662,6 +679,11 @@ def opname_of(text):
         if t.startswith("d "):
             return "operator " + t.split(" ")[1]
         return "constructor"
+    if t.startswith("r = d."):
+        view = t[6:].split("(")[0]
+        return ("%s() result held across a mutation" if "; s = list(r)" in t else "edit of the list returned by %s()") % view
+    if t.startswith("for k in d.keys()"):
+        return "delete while iterating keys()"
     if t.startswith("del "):
         return "__delitem__"
     if t.startswith("d["):
@@ -734,6 +756,8 @@ def run():
         "keys {a,b,A} (modict {a,b}), values {1,2} plus 0 and None on a/b; pop defaults 'D', 1, None, 0 (so a default can be the identical object that is stored); oset universe {a,b,c}; larger universes add no new code paths (no method depends on key count or value)",
         "lodict: 'every mapping operation' is read as every method that takes a key or a bulk argument, including the inherited pop/insert/create/sift/reorder",
         "modict: inherited odict operations (insert, sift, pickle, copy, reorder) must keep the key -> list-of-values shape; reorder may replace or append",
+        "keys() / values() / items() results that are lists are snapshots: they must not change when the dict is mutated afterwards, editing them must "
+        "not change the dict, and deleting every key while iterating keys() must empty the dict (a non-list view would be exempt from the first clause)",
         "order of oset & and ^ results, repr text and return values of void mutators are not compared",
         "a single operation running longer than %.1fs of CPU on a 3-key container is reported as non-terminating" % HANG,
     ]
